@@ -511,15 +511,14 @@ func (l labelT) Name() string { return "local " + string(l) }
 func pick[cfg any](x cfg) cfg { return x }
 
 func FLocalKinds() string {
-	res := acfg.Config{N: 1}.Describe()
+	const cfg labelT = "const"
+	type cfg2 struct{ V int }
+	v := cfg2{V: acfg.Default}
+	res := acfg.Name() + "/" + cfg.Name() + itoa(v.V)
 	{
-		const cfg labelT = "const"
-		res += cfg.Name()
-	}
-	{
-		type cfg struct{ V int }
-		v := cfg{V: 5}
-		res += itoa(v.V)
+		type cfg struct{ W int }
+		w := cfg{W: acfg.Double(2)}
+		res += itoa(w.W)
 	}
 	return res + itoa(pick[int](acfg.Default))
 }
@@ -660,6 +659,8 @@ var Default = 11
 func Double(x int) int { return 2 * x }
 
 func NewA() int { return Default }
+
+func Name() string { return "package cfg" }
 `
 
 const c15LibB = `package cfg
